@@ -159,3 +159,27 @@ Fixpoint collect_vals (acc : list (N * (list N * list N))) (l : list tr) : list 
       let h := v_height vot in
       collect_vals (if existsb (fun x => fst x =? h) acc then acc else (h, (v_keys vot, v_pows vot)) :: acc) rest
   end.
+
+(** * C10: observations right after a restart *)
+(** the set of (target, key id, signature) triples of a collection *)
+Definition coll_triples (c : tr) : list tr :=
+  flat_map (fun e => map (fun s => TL [nth_tr e 0; s]) (tls (nth_tr e 1))) (tls c).
+
+Definition tr_subset (a b : list tr) : bool := forallb (fun x => existsb (tr_eqb x) b) a.
+
+(** every vote persisted for a round the node resumes in is present again in the view *)
+Definition persisted_reloaded (o : tr) : bool :=
+  forallb (fun v =>
+    forallb (fun e =>
+      if (tn (nth_tr e 0) =? v_height v) && (tn (nth_tr e 1) =? v_round v) && negb (v_height v =? 0) then
+        (match tls (nth_tr e 3) with [TB _; c] => tr_subset (coll_triples c) (coll_triples (nth_tr v 7)) | _ => true end) &&
+        (match tls (nth_tr e 4) with [TB _; c] => tr_subset (coll_triples c) (coll_triples (nth_tr v 8)) | _ => true end) &&
+        tr_subset (tls (nth_tr e 2)) (tls (nth_tr v 6))
+      else true) (tls (nth_tr o 4)))
+    [nth_tr o 0; nth_tr o 1].
+
+Definition c10_restart_obs_ok (o : tr) : bool := persisted_reloaded o && c05_obs_ok o.
+
+(** position and committed chain of an observation *)
+Definition pos_chain (o : tr) : tr :=
+  TL [nth_tr o 2; TL (map (fun e => TL [nth_tr e 0; nth_tr e 1]) (tls (nth_tr o 3)))].
